@@ -9,7 +9,8 @@
   The recount is taken from `destinations(Global, family, [], enable_filtered = true)` as observed.
   Interpretation (see checks/c15.py): `received` = prefixes with ≥ 1 path from the peer, `accepted`
   = paths of the peer that passed import policy (the repository's documented Add-Path semantics),
-  limit counter = prefixes with ≥ 1 path from the session's peer.
+  limit counter of a session = prefixes with ≥ 1 path of that session (its `Source`); the
+  "configured maximum" clause is judged per peer address (all sessions' paths).
 -/
 import Rbgp.Rib.Obs
 namespace Rbgp.Rib.SpecC15
@@ -137,11 +138,11 @@ def checkStep (c : Case) (st : St) (live : List Live) (op : Op) (s : StepObs) : 
   (firstSome (fun (l : Live) =>
       match addrOf c l.src with
       | none => some "unknown-reference"
-      | some addr =>
+      | some _ =>
           let v := ctrOf s l.src l.fam
           if v ≥ HALF then some s!"limit-counter-underflow class={cls l}"
           else if (s.fams.any fun fo => fo.fam = l.fam) &&
-              v ≠ countPrefixes (fromAddr c addr) (famDests s.fams l.fam) then
+              v ≠ countPrefixes (fun e => e.src == l.src) (famDests s.fams l.fam) then
             some s!"limit-counter-ne-recount class={cls l}"
           else none) live).orElse fun _ =>
   -- the limit is enforced or signalled
